@@ -159,7 +159,7 @@ def build_node_obligations() -> t.List[dict]:
 
 
 def run(prop: str, tier: str, seed: int) -> dict:
-    fams = ['plain', 'switch', 'oneof', 'rec', 'mix', 'recx', 'switchx', 'oneofx']
+    fams = ['plain', 'switch', 'oneof', 'rec', 'mix', 'twice', 'recx', 'switchx', 'oneofx']
     items = [(tier, 'corpus', sp) for sp in corpus.specs()]
     for f in fams:
         items += [(tier, f, sp) for sp in EN.family(f, tier)]
